@@ -507,6 +507,25 @@ def bias_consumers(chk: Check, rule: str, modules: List[str]) -> None:
         chk.saw(f)
         k = builder_bias(f)
         biases[b] = k
+        if b == "_address_interval":
+            cfgb = CFG(f.node)
+            alb = local_aliases(f.node)
+            mk = cfgb.nodes_where(lambda n: isinstance(n, ast.Call) and (dotted(n.func) or ("",))[-1] == "Interval")
+            known: Set[int] = set()
+            for tn, i in cfgb.info.items():
+                if i.kind == "test" and isinstance(i.ast, ast.Compare) and len(i.ast.ops) == 1 and \
+                        isinstance(i.ast.ops[0], (ast.Is, ast.IsNot)) and \
+                        (expand_path(i.ast.left, alb) or ("",))[-1] == "address":
+                    for bn in cfgb.g.successors(tn):
+                        bi = cfgb.info[bn]
+                        if bi.kind == "branch" and bi.value == isinstance(i.ast.ops[0], ast.IsNot):
+                            known.add(bn)
+            okn = bool(known) and bool(mk) and all(cfgb.path_avoiding(cfgb.entry, m_, known) is None for m_ in mk)
+            none_ret = any(isinstance(r, ast.Return) and (r.value is None or (
+                isinstance(r.value, ast.Constant) and r.value.value is None)) for r in walk_no_nested(f.node))
+            chk.ob(rule, "%s:only-addressed-nodes" % b, okn and none_ret, f.loc(),
+                   "%s must build an interval exactly for nodes whose address is not None and return "
+                   "None for the others" % b, 2)
         chk.ob(rule, "%s:closed-interval" % b, k == 1, f.loc(),
                "%s must encode the closed range [b, b+size] as Interval(b, b+size+1); its bias is %r "
                "(zero-sized nodes would vanish from the tree, or ranges would be one too long)" % (b, k), 3)
